@@ -33,6 +33,7 @@ structure Inv (t : T) : Prop where
   val_key : ∀ id, (t.nd id).val ≠ 0 → (t.nd id).key.isSome = true ∧ (t.nd id).refcount > 0
   key_val : ∀ id, (t.nd id).key.isSome = true → (t.nd id).val ≠ 0
   removed_val : ∀ id, (t.nd id).removed = true → (t.nd id).val ≠ 0
+  seg_bytes : ∀ id, ∀ c ∈ (t.nd id).seg, 0 < c ∧ c < 256
 
 theorem nd_empty (j : Nat) : empty.nd j = Node.blank none := by
   cases j <;> rfl
@@ -60,12 +61,13 @@ theorem inv_empty : Inv empty where
   val_key := by intro id h; rw [nd_empty] at h; simp [Node.blank] at h
   key_val := by intro id h; rw [nd_empty] at h; simp [Node.blank] at h
   removed_val := by intro id h; rw [nd_empty] at h; simp [Node.blank] at h
+  seg_bytes := by intro id c h; rw [nd_empty] at h; simp [Node.blank] at h
 
 /-- the invariant only talks about the node store -/
 theorem Inv.congr {t t' : T} (h : Inv t) (e : ∀ j, t'.node? j = t.node? j) : Inv t' := by
   have nd_eq : ∀ j, t'.nd j = t.nd j := fun j => by unfold T.nd; rw [e j]
   have sh : SameShape t t' := sameShape_of_nd nd_eq
-  refine ⟨?_, ?_, ?_, ?_, ?_, ?_, ?_, ?_⟩
+  refine ⟨?_, ?_, ?_, ?_, ?_, ?_, ?_, ?_, ?_⟩
   · simpa [e] using h.header
   · intro p i c hc; rw [nd_eq] at hc; simpa [e] using h.child_ok p i c hc
   · intro id n p hn hp; rw [e] at hn; rw [nd_eq]; exact h.parent_ok id n p hn hp
@@ -76,6 +78,7 @@ theorem Inv.congr {t t' : T} (h : Inv t) (e : ∀ j, t'.node? j = t.node? j) : I
   · intro id; rw [nd_eq]; exact h.val_key id
   · intro id; rw [nd_eq]; exact h.key_val id
   · intro id; rw [nd_eq]; exact h.removed_val id
+  · intro id; rw [nd_eq]; exact h.seg_bytes id
 
 /-- overwriting the non-structural fields of one node -/
 theorem Inv.update {t : T} (h : Inv t) {id : Nat} {n n' : Node} (hn : t.node? id = some n)
@@ -93,7 +96,7 @@ theorem Inv.update {t : T} (h : Inv t) {id : Nat} {n n' : Node} (hn : t.node? id
     intro j; rw [node?_set]; simp [hlt]
   have hndj : ∀ j, (t.set id n').nd j = if j = id then n' else t.nd j := by
     intro j; rw [nd_set]; simp [hlt]
-  refine ⟨?_, ?_, ?_, ?_, ?_, ?_, ?_, ?_⟩
+  refine ⟨?_, ?_, ?_, ?_, ?_, ?_, ?_, ?_, ?_⟩
   · obtain ⟨hd, hd0, hp, hs, hk, hv⟩ := h.header
     rw [hnode]
     by_cases e : 0 = id
@@ -144,6 +147,7 @@ theorem Inv.update {t : T} (h : Inv t) {id : Nat} {n n' : Node} (hn : t.node? id
     by_cases e : j = id
     · simp [e]; exact hrv
     · simp [e]; exact h.removed_val j
+  · intro j; rw [(sh j).1]; exact h.seg_bytes j
 
 /-- under the invariant a node has exactly one path -/
 theorem start_unique {t : T} (h : Inv t) {id : Nat} {p p' : List Nat} (h1 : Start t id p)
